@@ -83,9 +83,9 @@ theorem program_Det {rules : List RuleSpec} (h : det rules = true) : (program ru
       obtain ⟨w, hw, hqw⟩ := List.mem_flatMap.1 h1
       have hw' := List.mem_filter.1 hw
       exact List.mem_flatMap.2 ⟨w, List.mem_filter.2 ⟨hw'.1, condHolds_mono w.1 r r' hs' hsub hw'.2⟩, hqw⟩
-  · intro k r r' q q' hq hq' hid
+  · intro k r q q' hq hq' hid
     have a := nextReqs_sub_all (specOf rules k) r q hq
-    have b := nextReqs_sub_all (specOf rules k) r' q' hq'
+    have b := nextReqs_sub_all (specOf rules k) r q' hq'
     exact inj_of_nodup_map (fun q => q.id) _ (specOf_det h k).1 q q' a b hid
   · intro k r q hq
     exact (specOf_det h k).2 q (nextReqs_sub_all (specOf rules k) r q hq)
